@@ -79,3 +79,35 @@ pub fn ensure_ordering_empty(bytes_read: u64) -> u32 {
     core::mem::forget(a);
     w
 }
+
+/// Native demonstration (C01, "no byte is delivered twice ... unordered reads yield non-overlapping
+/// chunks"): bytes 0..a arrive, then an overlapping retransmission covering o..o+b; the application
+/// reads in order once (consuming the first chunk) and then switches to unordered reads.  No stream
+/// offset may be handed out twice.
+pub fn ordered_then_unordered_native(a: u8, o: u8, b: u8) -> u32 {
+    static DATA: [u8; 512] = [7; 512];
+    let (a, o, b) = (a as usize, o as usize, b as usize);
+    if a == 0 || b == 0 || o > a {
+        return 0;
+    }
+    let mut asm = Assembler::new();
+    asm.insert(0, Bytes::from_static(&DATA[..a]), a).unwrap();
+    asm.insert(o as u64, Bytes::from_static(&DATA[..b]), b).unwrap();
+    let mut seen = vec![0u8; a.max(o + b)];
+    asm.ensure_ordering(true).unwrap();
+    if let Some(c) = asm.read(usize::MAX, true) {
+        for i in 0..c.bytes.len() {
+            seen[c.offset as usize + i] += 1;
+        }
+    }
+    asm.ensure_ordering(false).unwrap();
+    while let Some(c) = asm.read(usize::MAX, false) {
+        for i in 0..c.bytes.len() {
+            seen[c.offset as usize + i] += 1;
+        }
+    }
+    for (off, n) in seen.iter().enumerate() {
+        assert!(*n <= 1, "stream offset {} was delivered to the application {} times", off, n);
+    }
+    1
+}
